@@ -22,6 +22,12 @@ enum RefinedTsTypeElement {
 /// would otherwise recurse until the stack overflows.
 const MAX_TYPE_RESOLUTION_DEPTH: u16 = 128;
 
+/// Acyclic types can still be exponentially expensive to expand
+/// (`type T0 = T1 & T1; type T1 = T2 & T2; ...` doubles at every level while
+/// staying shallow), so the number of resolution steps spent on one
+/// `defineComponent` argument is bounded as well.
+const MAX_TYPE_RESOLUTION_STEPS: u32 = 100_000;
+
 struct TypeResolutionDepthGuard<'a>(&'a Cell<u16>);
 
 impl Drop for TypeResolutionDepthGuard<'_> {
@@ -44,13 +50,18 @@ where
             return None;
         }
         let depth = self.type_resolution_depth.get();
-        if depth >= MAX_TYPE_RESOLUTION_DEPTH {
+        let steps = self.type_resolution_steps.get();
+        if depth >= MAX_TYPE_RESOLUTION_DEPTH || steps >= MAX_TYPE_RESOLUTION_STEPS {
             self.type_resolution_overflowed.set(true);
             HANDLER.with(|handler| {
-                handler.span_err(span, "Type is circular or nested too deeply to be resolved.");
+                handler.span_err(
+                    span,
+                    "Type is circular, nested too deeply or too complex to be resolved.",
+                );
             });
             return None;
         }
+        self.type_resolution_steps.set(steps + 1);
         self.type_resolution_depth.set(depth + 1);
         Some(TypeResolutionDepthGuard(&self.type_resolution_depth))
     }
@@ -58,6 +69,7 @@ where
     pub(crate) fn extract_props_type(&mut self, setup_fn: &ExprOrSpread) -> Option<Expr> {
         verif_point!("extract_props");
         self.type_resolution_overflowed.set(false);
+        self.type_resolution_steps.set(0);
         let mut defaults = None;
         let first_param_type = if let ExprOrSpread { expr, spread: None } = setup_fn {
             match &**expr {
@@ -1149,6 +1161,7 @@ where
     pub(crate) fn extract_emits_type(&self, setup_fn: &ExprOrSpread) -> Option<ArrayLit> {
         verif_point!("extract_emits");
         self.type_resolution_overflowed.set(false);
+        self.type_resolution_steps.set(0);
         let TsTypeAnn {
             type_ann: second_param_type,
             ..
